@@ -38,7 +38,7 @@ std::string ec_name(const error_code& ec) {
 }
 
 const char* op_kind_name(OpKind k) {
-    static const char* n[] = {"run", "publish_qos0", "publish_qos1", "publish_qos2", "subscribe", "unsubscribe", "receive", "disconnect"};
+    static const char* n[] = {"run", "publish_qos0", "publish_qos1", "publish_qos2", "subscribe", "unsubscribe", "receive", "disconnect", "stream_read", "stream_write", "stream_shutdown"};
     return n[int(k)];
 }
 
